@@ -25,7 +25,12 @@ EXPLANATION = ("Lean: for every hash function, per-file analysis and whole-progr
                "key composition / lookup the first and third hypothesis are theorems. Tie: key composition translated from the two "
                "calculateHash functions + hashed in-process against the real functions; reuse decisions of CLI histories compared with the model. "
                "The analysis itself (and that it is a function of the declared input) is a parameter, not verified.")
-THEOREMS = ["Cppcheck.Cache.history_transparent_partial"]
+THEOREMS = ["Cppcheck.Cache." + t for t in (
+    "history_transparent_partial", "history_transparent_perFile_partial", "history_transparent_fixed",
+    "fixed_key_faithful", "render_pathPrefixed", "files_txt_mapping_injective", "files_txt_mapping_injective_partial",
+    "encoding_not_injective", "linecol_mod_256_counterexample", "file_boundary_counterexample", "suffix_lookup_shares_cache_file",
+    "suffix_lookup_counterexample", "removed_file_counterexample", "macro_suppression_counterexample", "summaries_counterexample",
+    "current_encoding_classified", "current_toolinfo_fields_known")]
 MODULES = ["Cppcheck.Props.C18"]
 
 
@@ -638,59 +643,119 @@ def cppcheck(ctx, cwd, files, bd=None, jobs=1, extra=()):
     return rc, findings, dec, other
 
 
-def run_history(ctx, exe, drv, trees, jobs, tag):
-    """trees: list of {path: text}; a run after every snapshot.  Returns per run dict(cached, fresh, rc_c, rc_f, dec, model, files)"""
+KEY_SUMM = "summaries-not-in-cache-key"
+
+
+def cached_phase(ctx, trees, jobs, tag):
+    """the runs that share the build directory (sequential); every tree and every build-dir state before a run is snapshotted"""
     work = os.path.join(ctx.tmp, "hist", tag)
     shutil.rmtree(work, ignore_errors=True)
     src, bd = os.path.join(work, "src"), os.path.join(work, "bd")
     os.makedirs(src); os.makedirs(bd)
-    runs, wire = [], []
-    old = None
+    runs, old = [], None
     for k, tree in enumerate(trees):
         write_tree(src, tree, old)
         old = tree
         files = sources(tree)
         if not files:
-            runs.append(None); wire.append("R 0"); continue
+            runs.append(None); continue
+        snap = os.path.join(work, "snap%d" % k)
+        os.makedirs(snap)
+        write_tree(snap, tree)
+        shutil.copytree(bd, os.path.join(work, "bd%d" % k))
         j = jobs[k] if isinstance(jobs, list) else jobs
         rc_c, cached, dec, other_c = cppcheck(ctx, src, files, bd="../bd", jobs=j)
-        rc_f, fresh, _, other_f = cppcheck(ctx, src, files)
-        kops = ["K %s %s 1 1 00000 - 0 0 0 2 - - 0 0" % (core.hx(src), core.hx(f)) for f in files]
-        rc, kout, err = core.run_lines([exe, work], [], kops, timeout=300)
-        if len(kout) != len(kops):
-            raise core.CheckBroken("C18 harness (history) produced %d lines for %d ops: %s" % (len(kout), len(kops), err[-300:]))
-        w = ["R", str(len(files))]
-        for f, o in zip(files, kout):
-            kk = parse_k(o)
-            w += ["F", core.hx(f), kk["dump"], files_wire(kk["main"], kk["headers"])]
-        wire.append(" ".join(w))
-        runs.append(dict(cached=cached, fresh=fresh, rc_c=rc_c, rc_f=rc_f, dec=dec, files=files, jobs=j, other=other_c + other_f))
-    rc, mout, err = core.run_lines(drv, [], ["hist %d %s" % (len(trees), " ".join(wire))], timeout=300)
-    if len(mout) != 1 or mout[0] == "bad-op":
-        raise core.CheckBroken("C18 driver hist: %s %s" % (mout[:1], err[-300:]))
-    per_run = mout[0].split(" / ") if trees else []
-    for r, line in zip(runs, per_run):
-        if r is None:
-            continue
-        model = {}
-        for f, item in zip(r["files"], line.split(" ")):
-            slot, d, cls = item.split(":")
-            model[f] = (core.unhx(slot).decode("latin-1"), d, cls)
-        r["model"] = model
+        runs.append(dict(cached=cached, rc_c=rc_c, dec=dec, files=files, jobs=j, other=other_c, snap=snap, work=work, k=k))
     return runs
 
 
-def classify(run, tree):
+def finish_histories(ctx, exe, drv, hists):
+    """hists: list of (trees, runs).  Fresh runs (independent, two at a time), one harness call, one driver call."""
+    from concurrent.futures import ThreadPoolExecutor
+    todo = [r for _, runs in hists for r in runs if r is not None]
+
+    def fresh(r):
+        rc_f, fr, _, other = cppcheck(ctx, r["snap"], r["files"])
+        r["fresh"], r["rc_f"] = fr, rc_f
+        r["other"] += other
+    with ThreadPoolExecutor(max_workers=2) as ex:
+        list(ex.map(fresh, todo))
+    kops = ["K %s %s 1 1 00000 - 0 0 0 2 - - 0 0" % (core.hx(r["snap"]), core.hx(f)) for r in todo for f in r["files"]]
+    rc, kout, err = core.run_lines([exe, ctx.tmp], [], kops, timeout=900)
+    if len(kout) != len(kops):
+        raise core.CheckBroken("C18 harness (history) produced %d lines for %d ops: %s" % (len(kout), len(kops), err[-300:]))
+    it = iter(kout)
+    hops = []
+    for trees, runs in hists:
+        wire = []
+        for r in runs:
+            if r is None:
+                wire.append("R 0"); continue
+            w = ["R", str(len(r["files"]))]
+            for f in r["files"]:
+                kk = parse_k(next(it))
+                w += ["F", core.hx(f), kk["dump"], files_wire(kk["main"], kk["headers"])]
+            wire.append(" ".join(w))
+        hops.append("hist %d %s" % (len(runs), " ".join(wire)))
+    rc, mout, err = core.run_lines(drv, [], hops, timeout=900)
+    if len(mout) != len(hops) or any(o == "bad-op" for o in mout):
+        raise core.CheckBroken("C18 driver hist: %s %s" % (mout[:1], err[-300:]))
+    for (trees, runs), line in zip(hists, mout):
+        for r, part in zip(runs, line.split(" / ")):
+            if r is None:
+                continue
+            model = {}
+            for f, item in zip(r["files"], part.split(" ")):
+                slot, d, cls = item.split(":")
+                model[f] = (core.unhx(slot).decode("latin-1"), d, cls)
+            r["model"] = model
+
+
+def without_summaries(ctx, r):
+    """the same run on the same build-directory state with the function-return summaries (*.sN) removed"""
+    bdc = os.path.join(r["work"], "nosum%d" % r["k"])
+    shutil.rmtree(bdc, ignore_errors=True)
+    shutil.copytree(os.path.join(r["work"], "bd%d" % r["k"]), bdc)
+    n = 0
+    for f in os.listdir(bdc):
+        if re.search(r"\.s\d+$", f):
+            os.remove(os.path.join(bdc, f)); n += 1
+    rc, cached, _, _ = cppcheck(ctx, r["snap"], r["files"], bd=bdc, jobs=r["jobs"])
+    return n, rc, cached
+
+
+def shadow_history(ctx, trees, jobs, upto, tag):
+    """the same history over a second build directory whose function-return summaries (*.sN) are removed before every run"""
+    work = os.path.join(ctx.tmp, "hist", tag + "-shadow")
+    shutil.rmtree(work, ignore_errors=True)
+    src, bd = os.path.join(work, "src"), os.path.join(work, "bd")
+    os.makedirs(src); os.makedirs(bd)
+    out, old = [], None
+    for k, tree in enumerate(trees[:upto + 1]):
+        write_tree(src, tree, old)
+        old = tree
+        files = sources(tree)
+        if not files:
+            out.append(None); continue
+        for f in os.listdir(bd):
+            if re.search(r"\.s\d+$", f):
+                os.remove(os.path.join(bd, f))
+        j = jobs[k] if isinstance(jobs, list) else jobs
+        rc, cached, _, _ = cppcheck(ctx, src, files, bd="../bd", jobs=j)
+        out.append((cached, rc))
+    return out
+
+
+def classify(ctx, run, trees, jobs, tag):
     """keys of the known classes that explain cached != fresh in this run; None when the difference is not explained"""
-    diff = set(run["cached"]) ^ set(run["fresh"])
-    keys, involved = set(), set()
+    keys = set()
+    tree = trees[run["k"]]
     for f, (slot, d, cls) in run["model"].items():
         if d == "h" and cls not in ("-", "?"):
             if "O" in cls:
                 return None
             for c in cls:
                 keys.add(KEYS[c])
-            involved.add(f)
     slots = {}
     for f, (slot, d, cls) in run["model"].items():
         slots.setdefault(slot, []).append(f)
@@ -698,12 +763,20 @@ def classify(run, tree):
         keys.add(KEY_LOOKUP)
     if any("cppcheck-suppress-macro" in t for t in tree.values()) and any(d == "h" for (_, d, _) in run["model"].values()):
         keys.add(KEY_MACRO)
-    return keys or None
+    if keys:
+        return keys
+    # nothing in the key / mapping / replay explains it: does the difference come from the *.sN files?
+    nsum, rc2, cached2 = without_summaries(ctx, run)
+    if nsum and (cached2, rc2) == (run["fresh"], run["rc_f"]):
+        return {KEY_SUMM}
+    sh = shadow_history(ctx, trees, jobs, run["k"], tag)
+    if sh[run["k"]] == (run["fresh"], run["rc_f"]):
+        return {KEY_SUMM}      # a result computed under the summaries of an earlier run is replayed from the cache
+    return None
 
 
-def check_history(ctx, res, exe, drv, trees, jobs, tag, origin, expect=None):
-    """P_impl + decision correspondence for one history.  Returns the set of known keys seen."""
-    runs = run_history(ctx, exe, drv, trees, jobs, tag)
+def judge_history(ctx, res, trees, jobs, runs, tag, origin):
+    """P_impl + decision correspondence for one finished history.  Returns (known keys seen, ops, impl, model)."""
     seen = set()
     ops, impl, model = [], [], []
     for k, r in enumerate(runs):
@@ -717,11 +790,12 @@ def check_history(ctx, res, exe, drv, trees, jobs, tag, origin, expect=None):
         if not racy:            # two workers writing one cache file: the order is not determined
             ops.append(op); impl.append(canon_i); model.append(canon_m)
         res.count("hist:" + origin)
+        res.count("jobs:%d" % r["jobs"])
         for f in r["files"]:
             res.count("decision:" + r["model"][f][1])
         # P_impl
         if r["cached"] != r["fresh"] or r["rc_c"] != r["rc_f"]:
-            keys = classify(r, trees[k])
+            keys = classify(ctx, r, trees, jobs, tag)
             what = "run %d (-j%d) of history %s with --cppcheck-build-dir reports %s, without build dir %s" % (
                 k, r["jobs"], tag, sorted(set(r["cached"]) - set(r["fresh"]))[:3] or "(nothing extra)", sorted(set(r["fresh"]) - set(r["cached"]))[:3] or "(nothing extra)")
             payload = dict(trees=trees[:k + 1], jobs=(jobs[:k + 1] if isinstance(jobs, list) else jobs), cached=r["cached"], fresh=r["fresh"],
@@ -782,6 +856,10 @@ class Gen:
         if rng.random() < 0.3:
             tree["p.c"] = '#include "p.h"\n' + self.bug_line() + "\n"
             tree["p.h"] = ""
+        if rng.random() < 0.3:
+            k = self.fresh()
+            tree["sb.c"] = "void fr%d(void){}\n" % k
+            tree["sz.c"] = "#include <stdlib.h>\nvoid gz%d(void){ char *p = malloc(10); if (!p) return; *p = 0; fr%d(); }\n" % (k, k)
         return tree
 
     def edit(self, tree):
@@ -894,33 +972,69 @@ def load_corpus():
 
 def cli_histories(ctx, res, exe, drv, n, nruns):
     rng = ctx.rng
-    all_ops, all_impl, all_model = [], [], []
+    todo = []       # (tag, origin, trees, jobs, corpus entry)
     # corpus first: the witnesses of the known findings must still be seen by the machinery
     for c in load_corpus():
-        seen, ops, impl, model = check_history(ctx, res, exe, drv, c["trees"], c["jobs"], "corpus-" + c["name"], "corpus")
-        all_ops += ops; all_impl += impl; all_model += model
-        want = c.get("key")
-        if want:
-            res.extra.setdefault("witnesses", {})[c["name"]] = "reproduces" if want in seen else "does not reproduce"
+        todo.append(("corpus-" + c["name"], "corpus", c["trees"], c["jobs"], c))
     for h in range(n):
         trees, kinds = gen_history(rng, nruns)
         jobs = [rng.choice([1, 1, 2]) for _ in trees] if rng.random() < 0.5 else rng.choice([1, 2])
         for k in kinds:
             for part in k.split("+"):
                 res.count("edit:" + part)
-        seen, ops, impl, model = check_history(ctx, res, exe, drv, trees, jobs, "h%d" % h, "generated")
+        todo.append(("h%d" % h, "generated", trees, jobs, None))
+    hists = [(trees, cached_phase(ctx, trees, jobs, tag)) for (tag, origin, trees, jobs, c) in todo]
+    finish_histories(ctx, exe, drv, hists)
+    all_ops, all_impl, all_model = [], [], []
+    for (tag, origin, trees, jobs, c), (_, runs) in zip(todo, hists):
+        seen, ops, impl, model = judge_history(ctx, res, trees, jobs, runs, tag, origin)
         all_ops += ops; all_impl += impl; all_model += model
+        if c and c.get("key"):
+            res.extra.setdefault("witnesses", {})[c["name"]] = "reproduces" if c["key"] in seen else "does not reproduce"
     core.correspond(ctx, res, "cli-reuse-decisions", all_ops, all_impl, all_model,
                     nontrivial=lambda op, out: " run 0 " not in op and (":h" in out or ":m" in out))
 
 
-def run(ctx, res):
-    thorough = ctx.tier == "thorough"
-    ok, detail, ex = translate(ctx)
-    res.oblig("T1:hash-input-translation", ok, "translation", detail)
-    core.prove(ctx, res, MODULES, THEOREMS)
+def replay(ctx, res, rp):
     drv = ctx.driver("drv_c18")
     exe = ctx.harness("c18")
+    trees, jobs = rp["trees"], rp.get("jobs", 1)
+    runs = cached_phase(ctx, trees, jobs, "replay")
+    finish_histories(ctx, exe, drv, [(trees, runs)])
+    bad = 0
+    for k, r in enumerate(runs):
+        if r is None:
+            continue
+        same = r["cached"] == r["fresh"] and r["rc_c"] == r["rc_f"]
+        print("run %d -j%d: %s  decisions=%s" % (k, r["jobs"], "same as a run without build dir" if same else "DIFFERS", r["model"]))
+        if not same:
+            bad += 1
+            print("   with build dir   : rc=%s %s" % (r["rc_c"], r["cached"]))
+            print("   without build dir: rc=%s %s" % (r["rc_f"], r["fresh"]))
+            print("   classes: %s" % (classify(ctx, r, trees, jobs, "replay"),))
+    print("replay: %d run(s) differ" % bad)
+    return 1 if bad else 0
+
+
+def run(ctx, res):
+    import time
+    thorough = ctx.tier == "thorough"
+    T = {}
+    t = time.time()
+    ok, detail, ex = translate(ctx)
+    res.oblig("T1:hash-input-translation", ok, "translation", detail)
+    if ex:
+        res.extra["translated"] = dict(encoding="legacy" if ex[2] == [("str",), ("lineChar",), ("colChar",)] else "proposed" if len(ex[2]) == 7 else "other",
+                                       lookup=ex[4], toolinfo_items=len(ex[0]))
+    core.prove(ctx, res, MODULES, THEOREMS)
+    T["prove"] = round(time.time() - t, 1); t = time.time()
+    drv = ctx.driver("drv_c18")
+    exe = ctx.harness("c18")
+    T["build"] = round(time.time() - t, 1); t = time.time()
     key_cases(ctx, res, exe, drv, 400 if thorough else 120)
+    T["key"] = round(time.time() - t, 1); t = time.time()
     mapping_cases(ctx, res, exe, drv, 300 if thorough else 80)
-    cli_histories(ctx, res, exe, drv, 60 if thorough else 8, 7 if thorough else 5)
+    T["mapping"] = round(time.time() - t, 1); t = time.time()
+    cli_histories(ctx, res, exe, drv, 60 if thorough else 6, 7 if thorough else 4)
+    T["cli"] = round(time.time() - t, 1)
+    res.extra["timings_s"] = T
